@@ -114,5 +114,28 @@ class Serializer:
 
     def deserialize_class(self, serialized_class: jsonable) -> Type:
         cls_module, cls_name = cast(str, serialized_class).rsplit('.', 1)
-        module = __import__(cls_module, fromlist=[cls_name])
-        return getattr(module, cls_name)
+        attr_names = [cls_name]
+        while True:
+            try:
+                module = __import__(cls_module, fromlist=[attr_names[0]])
+                break
+            except ModuleNotFoundError as ex:
+                # The class may be nested inside another class, in
+                # which case the end of cls_module is actually part
+                # of the qualified name of the class.
+                missing_name = cast(str, ex.name)
+                is_module_path = (cls_module == missing_name or cls_module.startswith(f'{missing_name}.'))
+                if not is_module_path or '.' not in cls_module:
+                    raise
+                module_error = ex
+                cls_module, outer_name = cls_module.rsplit('.', 1)
+                attr_names.insert(0, outer_name)
+        cls = module
+        for attr_name in attr_names:
+            try:
+                cls = getattr(cls, attr_name)
+            except AttributeError:
+                if len(attr_names) == 1:
+                    raise
+                raise module_error
+        return cls
